@@ -13,3 +13,15 @@ func TestC04(t *testing.T) {
 	defer r.Write()
 	vtx.Explore(t, prof.Isolation("c04", nil), r)
 }
+
+func TestC04Family(t *testing.T) {
+	r := rep.New("C04")
+	defer r.Write()
+	vtx.Explore(t, prof.IsolationFamily("c04-family", nil), r)
+}
+
+func TestC04TCP(t *testing.T) {
+	r := rep.New("C04")
+	defer r.Write()
+	vtx.Explore(t, prof.IsolationTCP("c04-tcp", nil), r)
+}
